@@ -76,6 +76,15 @@ theorem peerOK_step (hpl : 0 < pl) {p : Peer} (hp : PeerOK crc pl blob p) (a : A
   rw [hq]
   exact ⟨step_good hpl hp.1 a hsep, RTAll_step hpl hp.1 a hp.2.1, step_live hp.1 a hp.2.2⟩
 
+theorem markInvalid_tor (pa : Peer) (b i : Nat) : (markInvalid pa b i).tor = pa.tor := by
+  unfold markInvalid; simp only; split <;> rfl
+
+theorem dropEnd_ok {s : Swarm} (hs : SwarmOK crc pl blob s) (a b : Nat) : SwarmOK crc pl blob (dropEnd s a b) := by
+  unfold dropEnd
+  cases ha : s.peers[a]? with
+  | none => exact hs
+  | some pa => exact swarmOK_setPeer hs (peerOK_of_tor rfl (hs a pa ha))
+
 theorem swarm_step_ok (hpl : 0 < pl) {s : Swarm} (hs : SwarmOK crc pl blob s) (a : Swarm.Action)
     (hsep : SepSwarmAction crc pl blob a) : SwarmOK crc pl blob (Swarm.step crc s a) := by
   cases a with
@@ -93,6 +102,28 @@ theorem swarm_step_ok (hpl : 0 < pl) {s : Swarm} (hs : SwarmOK crc pl blob s) (a
         · exact hs
   | disconnect a b =>
     simp only [Swarm.step]
+    exact dropEnd_ok (dropEnd_ok hs a b) b a
+  | unblacklist a b =>
+    simp only [Swarm.step]
+    cases ha : s.peers[a]? with
+    | none => exact hs
+    | some pa => exact swarmOK_setPeer hs (peerOK_of_tor rfl (hs a pa ha))
+  | expire a b i =>
+    simp only [Swarm.step]
+    cases ha : s.peers[a]? with
+    | none => exact hs
+    | some pa =>
+      simp only
+      split
+      · exact swarmOK_setPeer hs (peerOK_of_tor rfl (hs a pa ha))
+      · exact hs
+  | reqfail a b i =>
+    simp only [Swarm.step]
+    cases ha : s.peers[a]? with
+    | none => exact hs
+    | some pa => exact swarmOK_setPeer hs (peerOK_of_tor (markInvalid_tor pa b i) (hs a pa ha))
+  | resend a f b i =>
+    simp only [Swarm.step]
     cases ha : s.peers[a]? with
     | none => exact hs
     | some pa =>
@@ -101,7 +132,7 @@ theorem swarm_step_ok (hpl : 0 < pl) {s : Swarm} (hs : SwarmOK crc pl blob s) (a
       | some pb =>
         simp only
         split
-        · exact swarmOK_setPeer (swarmOK_setPeer hs (peerOK_of_tor rfl (hs a pa ha))) (peerOK_of_tor rfl (hs b pb hb))
+        · exact swarmOK_setPeer hs (peerOK_of_tor rfl (hs a pa ha))
         · exact hs
   | leave a =>
     simp only [Swarm.step]
@@ -142,7 +173,7 @@ theorem swarm_step_ok (hpl : 0 < pl) {s : Swarm} (hs : SwarmOK crc pl blob s) (a
         simp only
         split
         · cases hw : wirePayload pb i g with
-          | none => exact swarmOK_setPeer hs (peerOK_of_tor rfl (hs a pa ha))
+          | none => exact swarmOK_setPeer hs (peerOK_of_tor (markInvalid_tor pa b i) (hs a pa ha))
           | some payload =>
             simp only
             apply swarmOK_setPeer hs
@@ -179,7 +210,9 @@ theorem swarm_step_ok (hpl : 0 < pl) {s : Swarm} (hs : SwarmOK crc pl blob s) (a
         | none => exact hs
         | some r =>
           simp only
-          cases r <;> exact swarmOK_setPeer hs (peerOK_of_tor rfl (hs a pa ha))
+          cases r <;> first
+            | exact swarmOK_setPeer hs (peerOK_of_tor rfl (hs a pa ha))
+            | exact swarmOK_setPeer hs (peerOK_of_tor (markInvalid_tor _ _ _) (hs a pa ha))
 
 /-- a torrent that holds the whole blob satisfies the invariants -/
 theorem seed_good (crc : Bytes → Nat) (pl : Nat) (blob : Bytes) :
@@ -236,6 +269,25 @@ theorem init_ok (crc : Bytes → Nat) (pl : Nat) (blob : Bytes) (cfg : Cfg) (see
     · cases hp
 
 
+/-- rewriting one peer with a record that keeps its torrent keeps every peer's torrent -/
+theorem setPeer_tor_same {s : Swarm} {x : Nat} {px q : Peer} (hx : s.peers[x]? = some px)
+    (a : Nat) (p p' : Peer) (hp : s.peers[a]? = some p) (hp' : (setPeer s x q).peers[a]? = some p')
+    (hq : q.tor = px.tor) : p'.tor = p.tor := by
+  simp only [setPeer] at hp'
+  rw [List.getElem?_set] at hp'
+  split at hp'
+  · split at hp'
+    · cases hp'; rename_i h1 _; subst h1; rw [hx] at hp; cases hp; exact hq
+    · cases hp'
+  · rw [hp] at hp'; cases hp'; rfl
+
+theorem dropEnd_tor (s : Swarm) (x y a : Nat) (p p' : Peer) (hp : s.peers[a]? = some p)
+    (hp' : (dropEnd s x y).peers[a]? = some p') : p'.tor = p.tor := by
+  unfold dropEnd at hp'
+  cases hx : s.peers[x]? with
+  | none => rw [hx] at hp'; simp only at hp'; rw [hp] at hp'; cases hp'; rfl
+  | some px => rw [hx] at hp'; simp only at hp'; exact setPeer_tor_same hx a p p' hp hp' rfl
+
 /-- every swarm action rewrites a peer's torrent by at most one torrent action -/
 theorem peer_tor_step (crc : Bytes → Nat) (s : Swarm) (act : Swarm.Action) (a : Nat) (p p' : Peer)
     (hp : s.peers[a]? = some p) (hp' : (Swarm.step crc s act).peers[a]? = some p') :
@@ -251,20 +303,63 @@ theorem peer_tor_step (crc : Bytes → Nat) (s : Swarm) (act : Swarm.Action) (a 
       | some py =>
         rw [hx, hy] at hp'; simp only at hp'
         split at hp'
-        · simp only [setPeer] at hp'
-          rw [List.getElem?_set] at hp'
-          split at hp'
-          · split at hp'
-            · cases hp'; rename_i h1 _; subst h1; rw [hy] at hp; cases hp; exact Or.inl rfl
-            · cases hp'
-          · rw [List.getElem?_set] at hp'
-            split at hp'
-            · split at hp'
-              · cases hp'; rename_i h1 _; subst h1; rw [hx] at hp; cases hp; exact Or.inl rfl
-              · cases hp'
-            · rw [hp] at hp'; cases hp'; exact Or.inl rfl
+        · -- two rewrites, both keep the torrents
+          have hy1 : (setPeer s x { px with conns := y :: px.conns }).peers[y]? = some (if x = y then { px with conns := y :: px.conns } else py) := by
+            simp only [setPeer]; rw [List.getElem?_set]
+            split
+            · rename_i h; subst h; simp [lt_of_getElem?_some hx]
+            · rename_i h; simp [hy]
+          cases hmid : (setPeer s x { px with conns := y :: px.conns }).peers[a]? with
+          | none =>
+            exfalso
+            have : a < (setPeer s x { px with conns := y :: px.conns }).peers.length := by
+              simp only [setPeer, List.length_set]; exact lt_of_getElem?_some hp
+            rw [List.getElem?_eq_none_iff] at hmid; omega
+          | some pm =>
+            have h1 := setPeer_tor_same hx a p pm hp hmid rfl
+            rename_i hcond
+            have hxy : x ≠ y := hcond.1
+            rw [if_neg hxy] at hy1
+            have h2 := setPeer_tor_same hy1 a pm p' hmid hp' rfl
+            exact Or.inl (by rw [h2, h1])
         · rw [hp] at hp'; cases hp'; exact Or.inl rfl
   | disconnect x y =>
+    simp only [Swarm.step] at hp'
+    have hlen1 : (dropEnd s x y).peers.length = s.peers.length := by
+      unfold dropEnd; cases hx : s.peers[x]? <;> simp [setPeer]
+    cases hm : (dropEnd s x y).peers[a]? with
+    | none =>
+      exfalso
+      have := lt_of_getElem?_some hp
+      rw [List.getElem?_eq_none_iff] at hm; omega
+    | some pm =>
+      have h1 := dropEnd_tor s x y a p pm hp hm
+      have h2 := dropEnd_tor (dropEnd s x y) y x a pm p' hm hp'
+      exact Or.inl (by rw [h2, h1])
+  | unblacklist x y =>
+    simp only [Swarm.step] at hp'
+    cases hx : s.peers[x]? with
+    | none => rw [hx] at hp'; simp only at hp'; rw [hp] at hp'; cases hp'; exact Or.inl rfl
+    | some px =>
+      rw [hx] at hp'; simp only at hp'
+      exact Or.inl (setPeer_tor_same hx a p p' hp hp' rfl)
+  | expire x y j =>
+    simp only [Swarm.step] at hp'
+    cases hx : s.peers[x]? with
+    | none => rw [hx] at hp'; simp only at hp'; rw [hp] at hp'; cases hp'; exact Or.inl rfl
+    | some px =>
+      rw [hx] at hp'; simp only at hp'
+      split at hp'
+      · exact Or.inl (setPeer_tor_same hx a p p' hp hp' rfl)
+      · rw [hp] at hp'; cases hp'; exact Or.inl rfl
+  | reqfail x y j =>
+    simp only [Swarm.step] at hp'
+    cases hx : s.peers[x]? with
+    | none => rw [hx] at hp'; simp only at hp'; rw [hp] at hp'; cases hp'; exact Or.inl rfl
+    | some px =>
+      rw [hx] at hp'; simp only at hp'
+      exact Or.inl (setPeer_tor_same hx a p p' hp hp' (markInvalid_tor px y j))
+  | resend x f y j =>
     simp only [Swarm.step] at hp'
     cases hx : s.peers[x]? with
     | none => rw [hx] at hp'; simp only at hp'; rw [hp] at hp'; cases hp'; exact Or.inl rfl
@@ -274,18 +369,7 @@ theorem peer_tor_step (crc : Bytes → Nat) (s : Swarm) (act : Swarm.Action) (a 
       | some py =>
         rw [hx, hy] at hp'; simp only at hp'
         split at hp'
-        · simp only [setPeer] at hp'
-          rw [List.getElem?_set] at hp'
-          split at hp'
-          · split at hp'
-            · cases hp'; rename_i h1 _; subst h1; rw [hy] at hp; cases hp; exact Or.inl rfl
-            · cases hp'
-          · rw [List.getElem?_set] at hp'
-            split at hp'
-            · split at hp'
-              · cases hp'; rename_i h1 _; subst h1; rw [hx] at hp; cases hp; exact Or.inl rfl
-              · cases hp'
-            · rw [hp] at hp'; cases hp'; exact Or.inl rfl
+        · exact Or.inl (setPeer_tor_same hx a p p' hp hp' rfl)
         · rw [hp] at hp'; cases hp'; exact Or.inl rfl
   | leave x =>
     simp only [Swarm.step] at hp'
@@ -329,13 +413,8 @@ theorem peer_tor_step (crc : Bytes → Nat) (s : Swarm) (act : Swarm.Action) (a 
         split at hp'
         · cases hw : wirePayload py j g with
           | none =>
-            rw [hw] at hp'; simp only [setPeer] at hp'
-            rw [List.getElem?_set] at hp'
-            split at hp'
-            · split at hp'
-              · cases hp'; rename_i h1 _; subst h1; rw [hx] at hp; cases hp; exact Or.inl rfl
-              · cases hp'
-            · rw [hp] at hp'; cases hp'; exact Or.inl rfl
+            rw [hw] at hp'; simp only at hp'
+            exact Or.inl (setPeer_tor_same hx a p p' hp hp' (markInvalid_tor px y j))
           | some payload =>
             rw [hw] at hp'; simp only [setPeer] at hp'
             rw [List.getElem?_set] at hp'
@@ -371,11 +450,9 @@ theorem peer_tor_step (crc : Bytes → Nat) (s : Swarm) (act : Swarm.Action) (a 
         | none => rw [hf, hr] at hp'; simp only at hp'; rw [hp] at hp'; cases hp'; exact Or.inl rfl
         | some r =>
           rw [hf, hr] at hp'; simp only at hp'
-          cases r <;> simp only [setPeer] at hp' <;> rw [List.getElem?_set] at hp' <;> split at hp' <;>
-            first
-            | (split at hp'
-               · cases hp'; rename_i h1 _; subst h1; rw [hx] at hp; cases hp; exact Or.inl rfl
-               · cases hp')
-            | (rw [hp] at hp'; cases hp'; exact Or.inl rfl)
+          cases r <;> first
+            | exact Or.inl (setPeer_tor_same hx a p p' hp hp' rfl)
+            | exact Or.inl (setPeer_tor_same hx a p p' hp hp' (markInvalid_tor _ _ _))
+
 
 end KrakenModel.Proof.C19
